@@ -54,6 +54,7 @@ def guess_sets(spec, N, dae):
     else:
         gs.append([(Z(0), Fr(9, 4)), (X(0), t)])
         gs.append([(Z(0), t * 2 + 3)])
+        gs.append([(Z(0), [[Fr(60 + k) for k in range(N)]])])       # per-interval array guess for an algebraic variable
     return gs
 
 
